@@ -157,8 +157,19 @@ func (r *RuleCtx) IsSuccessReturn(pt Pt) bool {
 			return true // bare return: conservatively a success exit
 		}
 		last := ret.Results[len(ret.Results)-1]
-		if isErrorType(r.Info.TypeOf(last)) || isNilIdent(r.Info, last) {
-			return isNilIdent(r.Info, last)
+		sig, _ := r.FI.Obj.Type().(*types.Signature)
+		sigErr := sig != nil && r.F.Body == r.FI.Decl.Body && sig.Results().Len() > 0 && isErrorType(sig.Results().At(sig.Results().Len()-1).Type())
+		if sigErr || isErrorType(r.Info.TypeOf(last)) || isNilIdent(r.Info, last) {
+			if isNilIdent(r.Info, last) {
+				return true
+			}
+			// an error variable may be nil: only literals, address-of and selector constants are surely non-nil
+			if o := objOf(r.Info, last); o != nil {
+				if v, ok := o.(*types.Var); ok && !v.IsField() && v.Parent() != nil && v.Pkg() != nil && v.Parent() != v.Pkg().Scope() {
+					return false // `return err` after an err != nil test is the dominant idiom; rules that care refine on the variable
+				}
+			}
+			return false
 		}
 		return true
 	}
